@@ -205,3 +205,17 @@ Theorem C07_loop_count_flag : forall c ch a n pos vaf st,
     groups_of (a_id a) (mt st') = enc (N.of_nat n).
 Proof. exact parse_loop_count_flag. Qed.
 Print Assumptions C07_loop_count_flag.
+
+Theorem C07_loop_cluster_tokens : forall c, c_subs c = [] -> forall toks os, cluster_tokens c toks os -> forall pos vaf st,
+  fs_skip st = 0 ->
+  parse_loop c toks (mkL PSValuesDone pos vaf false) st = (do st' <- react_all c os st; ROk (LDone st')).
+Proof. exact parse_loop_cluster_tokens. Qed.
+Print Assumptions C07_loop_cluster_tokens.
+
+Theorem C07_loop_count_cluster : forall c ch a n pos vaf st,
+  plain_short_flag c ch a -> count_flag a -> ~ In (a_id a) (groups_for_arg c (a_id a)) ->
+  wf_m (mt st) -> mt_pending (mt st) = None -> fs_skip st = 0 -> groups_of (a_id a) (mt st) = None ->
+  exists st', parse_loop c [45 :: repeat ch (S n)] (mkL PSValuesDone pos vaf false) st = ROk (LDone st') /\
+    groups_of (a_id a) (mt st') = enc (N.of_nat (S n)).
+Proof. exact parse_loop_count_cluster. Qed.
+Print Assumptions C07_loop_count_cluster.
